@@ -158,6 +158,22 @@ def run_rc(case):
             v.append({"kind": bad[0], "detail": bad[1]})
         if len(v) > 10:
             break
+        if isinstance(n, int) and obs["counts_formatted"] % 7 == 0 and not bad:
+            # the same count held in a fixed-width NumPy integer (sizes and products taken
+            # from arrays): the same text
+            import numpy as np
+            for ndt in (np.int64, np.uint64, np.int32, np.uint32, np.int16):
+                if n <= np.iinfo(ndt).max:
+                    try:
+                        s2 = readable_count(ndt(n))
+                    except Exception as exc:  # noqa: BLE001
+                        s2 = f"{type(exc).__name__}: {exc}"
+                    obs["numpy_integer_counts"] = obs.get("numpy_integer_counts", 0) + 1
+                    if s2 != s:
+                        v.append({"kind": "text-depends-on-the-integer-type-of-the-count",
+                                  "detail": f"readable_count({n}) = {s!r}, but "
+                                  f"readable_count(numpy.{np.dtype(ndt).name}({n})) = {s2!r}"})
+                        break
     return {"violations": v, "evals": len(items),
             "distinct_disjoint": sum(1 for n in case["values"] if n >= 1000), "obs": obs,
             "sample": {"kind": "readable_count", "values": items[:5], "n": len(items)}}
@@ -422,6 +438,7 @@ def gates(obs, tier):
         and calls.get("show_scales_info", 0) > 0 and calls.get("show_scale_file_info", 0) > 0,
         "all_prefixes_seen": len(obs.get("prefixes", {})) == 7,
         "counts_beyond_2_60": obs.get("beyond_2_60", 0) > 100,
+        "counts_held_in_numpy_integers": obs.get("numpy_integer_counts", 0) > 1000,
         "huge_infos": obs.get("huge_infos", 0) > 5,
         "real_datasets_all_routes": len(obs.get("routes", {})) == 3,
         "tracer_and_census_agree_nonzero": obs.get("chunks_counted_by_tracer", 0) > 50
